@@ -314,6 +314,53 @@ pub fn run(ctx: &'static Ctx) {
         }
         emb.fetch_add(1, Ordering::Relaxed);
     }
+    // an integer at every byte offset inside every container (two things at once: what the parent has already collected and
+    // the width of the integer that arrives): pads of k one-byte children (k 0..=250) or one k-byte child (k 0..=300, around
+    // 4096 and 65536) in front, one child behind; the object must equal the one whose integer child is replaced by the
+    // reference encoding handed over as plain bytes
+    {
+        use crate::amlobj::{takes_children, with_children, Bytes, SIZED_KINDS};
+        use acpi_tables::aml::ONE;
+        let kinds: Vec<usize> = (0..SIZED_KINDS.len()).filter(|k| takes_children(*k)).collect();
+        let ks: Vec<(usize, bool)> = (0..=250usize).map(|k| (k, true)).chain((0..=300usize).chain(4085..=4100).chain(65_525..=65_540).map(|k| (k, false))).collect();
+        let offs = AtomicU64::new(0);
+        kinds.par_iter().for_each(|kind| {
+            for (k, ones) in &ks {
+                let pad_bytes = Bytes(vec![0x01; *k]);
+                for (carrier, v) in [("u8", 0x55u64), ("u16", 0x1234), ("u32", 0x1234_5678), ("u64", 0x1122_3344_5566_7788), ("usize", 0x0102_0304), ("u64", 0x80), ("u32", 0x100)] {
+                    let (a8, a16, a32, a64, au) = (v as u8, v as u16, v as u32, v, v as usize);
+                    let int: &dyn Aml = match carrier {
+                        "u8" => &a8,
+                        "u16" => &a16,
+                        "u32" => &a32,
+                        "usize" => &au,
+                        _ => &a64,
+                    };
+                    let mut enc = vec![];
+                    int_encode(v, &mut enc);
+                    let refc = Bytes(enc);
+                    let build = |mid: &dyn Aml| -> Result<Vec<u8>, String> {
+                        let mut kids: Vec<&dyn Aml> = if *ones { vec![&ONE as &dyn Aml; *k] } else { vec![&pad_bytes as &dyn Aml] };
+                        kids.push(mid);
+                        kids.push(&ONE);
+                        crate::util::catch(|| with_children(*kind, kids))
+                    };
+                    offs.fetch_add(1, Ordering::Relaxed);
+                    let (got, want) = (build(int), build(&refc));
+                    if got != want || got.is_err() {
+                        ctx.violation_sized(
+                            "int:embedded:offset",
+                            *k as u64,
+                            || format!("{} holding {} then {:#x} as {} then One: differs from the same object with the integer's narrowest encoding handed over as bytes: {:?} | {:?}", SIZED_KINDS[*kind], if *ones { format!("{} x One", k) } else { format!("one child of {} bytes", k) }, v, carrier, got.as_ref().map(|b| hex(&b[b.len().saturating_sub(14)..])), want.as_ref().map(|b| hex(&b[b.len().saturating_sub(14)..]))),
+                            || json!({"family":"int-embedded","container":SIZED_KINDS[*kind],"pad":k,"pad_is_ones":ones,"value":v,"carrier":carrier}),
+                        );
+                    }
+                }
+            }
+        });
+        emb.fetch_add(offs.load(Ordering::Relaxed), Ordering::Relaxed);
+        ctx.engine("E3.embedded-offsets", json!({"objects": offs.load(Ordering::Relaxed), "containers": kinds.len(), "pads": ks.len(), "integers": 7}));
+    }
     calls.fetch_add(emb.load(Ordering::Relaxed), Ordering::Relaxed);
     ctx.engine("E3.embedded", json!({"buffer_sizes": max + 1, "package_elements": vals.len().min(4000)}));
     ctx.tr(calls.load(Ordering::Relaxed));
